@@ -308,18 +308,33 @@ def loaders(config, cwd=None):
             return str(t)
         # expected quads: every statement parsed on its own by the strict parser
         exp, bad = [], 0
+        import re as _re
+        labels = set()
+        def bn_ids(t, acc):
+            if isinstance(t, pyoxigraph.BlankNode):
+                acc.add(t.value)
+            elif isinstance(t, pyoxigraph.Triple):
+                bn_ids(t.subject, acc); bn_ids(t.object, acc)
         for l in out['set']:
             try:
                 for q in pyoxigraph.parse(io.BytesIO((l + ' .\n').encode('utf-8')), 'application/n-quads'):
                     exp.append([oxi_term(q.subject), oxi_term(q.predicate), oxi_term(q.object), oxi_term(q.graph_name)])
             except Exception:
                 bad += 1
+        # blank-node identity is given by the labels in the text (every parse call renames them)
+        for l in out['set']:
+            labels.update(_re.findall(r'(?:^| )_:(\S+)', l))
+        out['expected_bnodes'] = len(labels)
         out['expected'] = sorted(exp)
         out['unparseable'] = bad
         try:
             st = morph_kgc.materialize_oxigraph(config)
             out['oxigraph'] = sorted([oxi_term(q.subject), oxi_term(q.predicate), oxi_term(q.object), oxi_term(q.graph_name)] for q in st)
             out['oxigraph_len'] = len(st)
+            ids = set()
+            for q in st:
+                bn_ids(q.subject, ids); bn_ids(q.object, ids)
+            out['oxigraph_bnodes'] = len(ids)
         except Exception as e:
             out['oxigraph_exc'] = _bucket(e)
         def rd_term(t):
@@ -343,6 +358,7 @@ def loaders(config, cwd=None):
             out['rdflib_store'] = sorted(store_quads)
             out['rdflib_view'] = sorted([rd_term(s), rd_term(p), rd_term(o)] for s, p, o in g)
             out['rdflib_len'] = len(g)
+            out['rdflib_bnodes'] = len(set(t for (s, p, o), _ in g.store.triples((None, None, None), context=None) for t in (s, o) if isinstance(t, rdflib.BNode)))
         except Exception as e:
             out['rdflib_exc'] = _bucket(e)
         return out
